@@ -13,5 +13,5 @@ if n[1]!=1: print("PATTERN NOT FOUND",pat); sys.exit(1)
 open(f,'w').write(n[0])
 PY
 cd /verif
-for c in "$@"; do VERIF_REPO=$W ./check $c --tier quick 2>&1 | grep -v "^KNOWN-FINDING" | tail -3; done
+for c in "$@"; do VERIF_REPO=$W VERIF_EVIDENCE_DIR=/tmp/wt/reg_evidence ./check $c --tier quick 2>&1 | grep -v "^KNOWN-FINDING" | tail -3; done
 git -C /repo worktree remove --force $W
